@@ -65,7 +65,9 @@ def run(ctx):
     ctx.rule("C19.R2", "reset_state clears the whole symbol table unconditionally", floor=1)
     rf = ctx.fn(RESET)
     cls = [x for b, t, c in rf.calls() for x in t["f"].get("closures", [])]
-    ctx.need(len(cls) == 1 and cls[0] in prog.fns, "the closure reset_state passes to the symbol-table accessor")
+    cls = [x[3:] if x.startswith("fn:") else x for x in cls]
+    direct_clear = len(cls) == 1 and cls[0].endswith("HashMap::<K, V, S, A>::clear")      # `with_symbol_table(SymbolTable::clear)`: the method itself is the callback
+    ctx.need(len(cls) == 1 and (cls[0] in prog.fns or direct_clear), "the closure (or HashMap::clear itself) reset_state passes to the symbol-table accessor")
     # the accessor call is on every path of reset_state
     acc_blocks = [b for b, t, c in rf.calls() if t["f"].get("closures")]
     ok = rf.must_pass(0, rf.exits(), acc_blocks)
@@ -73,16 +75,19 @@ def run(ctx):
     ctx.oblig(ok, {"reset_state": "accessor call on every path"}, "must-pass")
     if not ok:
         ctx.violation("reset-conditional", rf.file_line(), "reset_state can return without touching the symbol table")
-    cf = prog.fns[cls[0]]
-    clears = [b for b, t, c in cf.calls() if c and c.endswith("HashMap::<K, V, S, A>::clear")]
-    ok = bool(clears) and cf.must_pass(0, cf.exits(), clears)
-    ctx.oblig(ok, {"closure": "HashMap::clear on every path"}, "must-pass")
-    if not ok:
-        ctx.violation("reset-partial", cf.file_line(), "reset_state's closure does not call HashMap::clear on every path: stale labels can survive")
-    if clears:
-        e = expr_str(cf.expr(cf.term(clears[0])["args"][0], 4))
-        ok = e in ("sym", "&*sym", "*sym") or "sym" in e
-        ctx.oblig(ok, {"cleared object": e}, "the table itself")
+    if direct_clear:
+        ctx.oblig(True, {"callback": "HashMap::clear itself"}, "the whole table, unconditionally")
+    else:
+        cf = prog.fns[cls[0]]
+        clears = [b for b, t, c in cf.calls() if c and c.endswith("HashMap::<K, V, S, A>::clear")]
+        ok = bool(clears) and cf.must_pass(0, cf.exits(), clears)
+        ctx.oblig(ok, {"closure": "HashMap::clear on every path"}, "must-pass")
+        if not ok:
+            ctx.violation("reset-partial", cf.file_line(), "reset_state's closure does not call HashMap::clear on every path: stale labels can survive")
+        if clears:
+            e = expr_str(cf.expr(cf.term(clears[0])["args"][0], 4))
+            ok = e in ("sym", "&*sym", "*sym") or "sym" in e
+            ctx.oblig(ok, {"cleared object": e}, "the table itself")
     ctx.finish_rule()
 
     ctx.rule("C19.R3", "no other mutable global state in the library", floor=1)
